@@ -363,3 +363,57 @@ pub fn real_walk_from(
         names.iter().filter(|n| *n != "<all>").map(|n| format!("{}={}", n, get(n))).collect::<Vec<_>>().join(",")
     )
 }
+
+/// C07 front-end G: a WHOLE x86 `walk_stack` from a context frame over a symbol file with FUNC and STACK WIN records.
+/// Returns the leading run of frames the unwinder produced by call frame info (`trust == CallFrameInfo`), each as
+/// `eip,esp,ebp`; frames found by frame pointer / scanning after the STACK WIN chain ended are not reported.
+pub fn real_walk_all(regs: &[(String, u64)], stackbase: u64, stack: &[u8], symtext: &str) -> String {
+    let mut c = format::CONTEXT_X86::default();
+    for (k, v) in regs {
+        c.set_register(k, *v as u32).expect("x86 reg");
+    }
+    let modules = MinidumpModuleList::from_modules(vec![MinidumpModule::new(MODULE_BASE, MODULE_SIZE, "m1")]);
+    let mut symbols = HashMap::new();
+    symbols.insert("m1".to_string(), format!("MODULE Linux x86 ABCD1234 m1\n{}", symtext));
+    let stack_memory = MinidumpMemory {
+        desc: Default::default(),
+        base_address: stackbase,
+        size: stack.len() as u64,
+        bytes: stack,
+        endian: scroll::LE,
+    };
+    let system_info = SystemInfo {
+        os: Os::Windows,
+        os_version: None,
+        os_build: None,
+        cpu: Cpu::X86,
+        cpu_info: None,
+        cpu_microcode_version: None,
+        cpu_count: 1,
+    };
+    let symbolizer = Symbolizer::new(string_symbol_supplier(symbols));
+    let mut cs = CallStack::with_context(MinidumpContext {
+        raw: MinidumpRawContext::X86(c),
+        valid: MinidumpContextValidity::All,
+    });
+    block_on(walk_stack(
+        0,
+        |_idx: usize, _f: &minidump_unwind::StackFrame| {},
+        &mut cs,
+        Some(UnifiedMemory::Memory(&stack_memory)),
+        &modules,
+        &system_info,
+        &symbolizer,
+    ));
+    let mut out = Vec::new();
+    for f in cs.frames.iter().skip(1) {
+        if f.trust != FrameTrust::CallFrameInfo {
+            break;
+        }
+        match &f.context.raw {
+            MinidumpRawContext::X86(c) => out.push(format!("{},{},{}", c.eip, c.esp, c.ebp)),
+            _ => panic!("arch"),
+        }
+    }
+    format!("W;{}", out.join(";"))
+}
